@@ -5,10 +5,12 @@ import (
 	"go/ast"
 	"go/parser"
 	"go/token"
+	"math/big"
 	"math/rand"
 	"path/filepath"
 	"strings"
 	"testing"
+	"time"
 
 	bridgetypes "github.com/tellor-io/layer/x/bridge/types"
 	disputetypes "github.com/tellor-io/layer/x/dispute/types"
@@ -21,6 +23,7 @@ import (
 
 	sdk "github.com/cosmos/cosmos-sdk/types"
 	authtypes "github.com/cosmos/cosmos-sdk/x/auth/types"
+	stakingtypes "github.com/cosmos/cosmos-sdk/x/staking/types"
 )
 
 // privileged messages sent by {authority, near misses, module accounts, plain accounts, team}
@@ -174,4 +177,158 @@ func exprString(e ast.Expr) string {
 		return exprString(x.Fun) + "()"
 	}
 	return "?"
+}
+
+// TestC19Register: registered data specs cannot be replaced by re-registration, whatever the spelling of
+// the query type (case, surrounding / inner white space, control characters) — real registry msg server.
+func TestC19Register(t *testing.T) {
+	out := newOut(t, "c19_register")
+	defer out.Close()
+	r := rand.New(rand.NewSource(seed() + 19))
+	w := newWorld(t, r, 2, 1)
+	n := count(60, 1500)
+	letters := "abcdefghijklmnopqrstuvwxyzABCDEFGHIJKLMNOPQRSTUVWXYZ"
+	for i := 0; i < n; i++ {
+		base := ""
+		for k := 0; k < 4+r.Intn(8); k++ {
+			base += string(letters[r.Intn(len(letters))])
+		}
+		base += fmt.Sprint(i)
+		mk := func(window uint64, vt string) registrytypes.DataSpec {
+			return registrytypes.DataSpec{DocumentHash: "hash" + vt, ResponseValueType: vt, AggregationMethod: "weighted-median", Registrar: w.accts[0].String(),
+				ReportBlockWindow: window, AbiComponents: []*registrytypes.ABIComponent{{Name: "a", FieldType: "string"}}}
+		}
+		orig := mk(2, "uint256")
+		if _, err := w.registryMS.RegisterSpec(w.ctx, &registrytypes.MsgRegisterSpec{Registrar: w.accts[0].String(), QueryType: base, Spec: orig}); err != nil {
+			t.Fatalf("register %q: %v", base, err)
+		}
+		stored, err := w.s.Registrykeeper.GetSpec(w.ctx, strings.ToLower(base))
+		if err != nil {
+			t.Fatal(err)
+		}
+		variants := []string{base, strings.ToLower(base), strings.ToUpper(base), base + " ", " " + base, "\t" + base + "\n", base + " ", " " + strings.ToUpper(base) + "  ",
+			base[:2] + " " + base[2:], base + "\x00", strings.Title(strings.ToLower(base))}
+		for _, v := range variants {
+			other := mk(7, "bytes")
+			cctx, write := w.ctx.CacheContext()
+			accepted := false
+			func() {
+				defer func() { _ = recover() }()
+				if _, err := w.registryMS.RegisterSpec(cctx, &registrytypes.MsgRegisterSpec{Registrar: w.accts[1].String(), QueryType: v, Spec: other}); err == nil {
+					accepted = true
+					write()
+				}
+			}()
+			now, err := w.s.Registrykeeper.GetSpec(w.ctx, strings.ToLower(base))
+			changed := err != nil || now.ResponseValueType != stored.ResponseValueType || now.ReportBlockWindow != stored.ReportBlockWindow || now.DocumentHash != stored.DocumentHash || now.Registrar != stored.Registrar
+			// non-printable characters are spelled out for the Coq term (equality with the registered name is unaffected)
+			vp := strings.NewReplacer("\t", "<TAB>", "\n", "<NL>", "\x00", "<NUL>", "\u00a0", "<NBSP>").Replace(v)
+			out.Emit(Case{Coq: fmt.Sprintf("RegCase %s %s %s %s", cstr(base), cstr(vp), cbool(accepted), cbool(changed)), Kind: fmt.Sprintf("register/accepted=%v", accepted),
+				Nontrivial: v != base, Key: fmt.Sprint(seed(), i, v), Human: map[string]interface{}{"registered": base, "attempt": vp, "accepted": accepted, "changed": changed}})
+			if changed {
+				// restore for the next variants
+				_ = w.s.Registrykeeper.SetDataSpec(w.ctx, strings.ToLower(base), stored)
+			}
+		}
+	}
+}
+
+// TestC19Remove: MsgRemoveSelector by a third party succeeds only for a selector whose bonded stake fell
+// below its reporter's minimum while the reporter is over the selector cap.  The stake is recomputed here
+// from the staking keeper (all delegations to bonded validators), independently of the keeper's HasMin.
+func TestC19Remove(t *testing.T) {
+	out := newOut(t, "c19_remove")
+	defer out.Close()
+	n := count(40, 1200)
+	for i := 0; i < n; i++ {
+		r := rand.New(rand.NewSource(seed()*104729 + int64(i)))
+		nVals := 3
+		w := newWorld(t, r, nVals, 5)
+		minReq := int64(pick(r, 1, 2, 5)) * loyaPerTRB
+		// reporter = a plain account with its own stake
+		rep := nVals
+		_, _ = w.stakingMS.Delegate(w.ctx, &stakingtypes.MsgDelegate{DelegatorAddress: w.accts[rep].String(), ValidatorAddress: w.valOps[0].String(), Amount: w.coin(bi(10 * loyaPerTRB))})
+		if _, err := w.reporterMS.CreateReporter(w.ctx, &reportertypes.MsgCreateReporter{ReporterAddress: w.accts[rep].String(), CommissionRate: math.LegacyZeroDec(), MinTokensRequired: math.NewInt(minReq)}); err != nil {
+			t.Fatal(err)
+		}
+		sels := []int{nVals + 1, nVals + 2, nVals + 3, nVals + 4}
+		for _, a := range sels {
+			// one or two delegations; amounts around the minimum, split so that one part alone may or may not reach it
+			v1 := r.Intn(nVals)
+			v2 := (v1 + 1 + r.Intn(nVals-1)) % nVals
+			a1 := pick(r, bi(minReq), bi(minReq-1), bi(minReq/2), bi(minReq+1), bi(2*minReq), bi(1))
+			_, _ = w.stakingMS.Delegate(w.ctx, &stakingtypes.MsgDelegate{DelegatorAddress: w.accts[a].String(), ValidatorAddress: w.valOps[v1].String(), Amount: w.coin(a1)})
+			if r.Intn(2) == 0 {
+				a2 := pick(r, bi(minReq), bi(minReq/2), bi(minReq-1), bi(2*minReq), bi(1))
+				_, _ = w.stakingMS.Delegate(w.ctx, &stakingtypes.MsgDelegate{DelegatorAddress: w.accts[a].String(), ValidatorAddress: w.valOps[v2].String(), Amount: w.coin(a2)})
+			}
+			_, _ = w.reporterMS.SelectReporter(w.ctx, &reportertypes.MsgSelectReporter{SelectorAddress: w.accts[a].String(), ReporterAddress: w.accts[rep].String()})
+		}
+		// some validators leave the bonded set, some selectors undelegate
+		w.beginBlock(time.Second)
+		for k := 0; k < 2; k++ {
+			if r.Intn(2) == 0 {
+				vi := r.Intn(nVals)
+				if v, err := w.s.Stakingkeeper.GetValidator(w.ctx, w.valOps[vi]); err == nil && !v.Jailed {
+					if cons, err := v.GetConsAddr(); err == nil {
+						func() {
+							defer func() { _ = recover() }()
+							_ = w.s.Stakingkeeper.Jail(w.ctx, cons)
+						}()
+					}
+				}
+			}
+		}
+		for _, a := range sels {
+			if r.Intn(3) == 0 {
+				if v, amt, ok := w.someDelegation(a); ok {
+					x := pick(r, amt, bquo(amt, bi(2)), bi(1))
+					if x.Sign() > 0 {
+						_, _ = w.stakingMS.Undelegate(w.ctx, &stakingtypes.MsgUndelegate{DelegatorAddress: w.accts[a].String(), ValidatorAddress: v.String(), Amount: w.coin(x)})
+					}
+				}
+			}
+		}
+		w.endBlock()
+		w.beginBlock(time.Second)
+		// governance lowers (or keeps) the cap
+		p := reportertypes.DefaultParams()
+		p.MaxSelectors = uint64(pick(r, 0, 1, 2, 3, 4, 5, 100))
+		if _, err := w.reporterMS.UpdateParams(w.ctx, &reportertypes.MsgUpdateParams{Authority: w.authority, Params: p}); err != nil {
+			t.Fatal(err)
+		}
+		third := 0
+		for _, a := range append(sels, rep) {
+			sel, err := w.s.Reporterkeeper.Selectors.Get(w.ctx, w.accts[a].Bytes())
+			if err != nil {
+				continue
+			}
+			// independent recomputation of the bonded stake
+			stake := new(big.Int)
+			_ = w.s.Stakingkeeper.IterateDelegatorDelegations(w.ctx, w.accts[a], func(d stakingtypes.Delegation) bool {
+				va, _ := sdk.ValAddressFromBech32(d.ValidatorAddress)
+				val, err := w.s.Stakingkeeper.GetValidator(w.ctx, va)
+				if err == nil && val.IsBonded() {
+					stake.Add(stake, val.TokensFromShares(d.Shares).TruncateInt().BigInt())
+				}
+				return false
+			})
+			nsel := 0
+			_ = w.s.Reporterkeeper.Selectors.Walk(w.ctx, nil, func(_ []byte, s reportertypes.Selection) (bool, error) {
+				if string(s.Reporter) == string(sel.Reporter) {
+					nsel++
+				}
+				return false, nil
+			})
+			res := w.deliver("RemoveSelector", third, nil, func(ctx sdk.Context) error {
+				_, err := w.reporterMS.RemoveSelector(ctx, &reportertypes.MsgRemoveSelector{AnyAddress: w.accts[third].String(), SelectorAddress: w.accts[a].String()})
+				return err
+			})
+			_, errAfter := w.s.Reporterkeeper.Selectors.Get(w.ctx, w.accts[a].Bytes())
+			changed := errAfter != nil
+			out.Emit(Case{Coq: fmt.Sprintf("RemoveCase %s %d %d %d %s %s", cz(stake), minReq, nsel, p.MaxSelectors, cbool(res.result == 0), cbool(changed)),
+				Kind: fmt.Sprintf("remove/accepted=%v", res.result == 0), Nontrivial: nsel > int(p.MaxSelectors), Key: fmt.Sprint(seed(), i, a),
+				Human: map[string]interface{}{"stake": stake.String(), "min": minReq, "selectors": nsel, "cap": p.MaxSelectors, "accepted": res.result == 0, "error": res.errMsg}})
+		}
+	}
 }
